@@ -104,6 +104,26 @@ class RunStateBinding(Binding):
                     self.vars[var] = (None,) + ((False, True) if neg else tuple(self.vars[src]))
                     self.snap[(id(fn.node), lname)] = (var, (lambda d, src=src: not d[src]) if neg else (lambda d, src=src: d[src]))
 
+        # the same for locals bound in a tuple assignment (`prev, e._prev_state = e._prev_state, None`), including _prev_state
+        for fn in fns:
+            counts: dict[str, int] = {}
+            for n_ in walk_no_nested(fn.node):
+                if isinstance(n_, ast.Assign):
+                    for t_ in n_.targets:
+                        for x_ in (t_.elts if isinstance(t_, ast.Tuple) else [t_]):
+                            if isinstance(x_, ast.Name):
+                                counts[x_.id] = counts.get(x_.id, 0) + 1
+            for n_ in walk_no_nested(fn.node):
+                if isinstance(n_, ast.Assign) and len(n_.targets) == 1 and isinstance(n_.targets[0], ast.Tuple) \
+                        and isinstance(n_.value, ast.Tuple) and len(n_.targets[0].elts) == len(n_.value.elts):
+                    for t_, v_ in zip(n_.targets[0].elts, n_.value.elts):
+                        if isinstance(t_, ast.Name) and counts.get(t_.id) == 1 and (id(fn.node), t_.id) not in self.snap:
+                            src = self.read(v_, fn)
+                            if src in ("started", "paused", "holding", "stopping", "sys", "prev"):
+                                var = f"L:{fn.short}:{t_.id}"
+                                self.vars[var] = (None,) + tuple(x for x in self.vars[src] if x is not None)
+                                self.snap[(id(fn.node), t_.id)] = (var, (lambda d, src=src: d[src]))
+
     # ---- extraction of the clock gate table from tags_impl
     def _clock_signal_table(self):
         table = {}
@@ -227,18 +247,25 @@ class RunStateBinding(Binding):
         if n.kind != "stmt":
             return out
         if isinstance(a, ast.Assign):
+            pairs = []
             for t in a.targets:
+                if isinstance(t, ast.Tuple) and isinstance(a.value, ast.Tuple) and len(t.elts) == len(a.value.elts):
+                    pairs += list(zip(t.elts, a.value.elts))     # (all right-hand sides read the state before the statement)
+                else:
+                    pairs.append((t, a.value))
+            for t, aval in pairs:
+                a_value = aval
                 if isinstance(t, ast.Name) and (id(f.node), t.id) in self.snap:
                     out.append(self.snap[(id(f.node), t.id)])
                 if isinstance(t, ast.Attribute) and self.is_engine(t.value, f):
                     if t.attr in FLAGS:
-                        out.append((FLAGS[t.attr], a.value))
+                        out.append((FLAGS[t.attr], a_value))
                     elif t.attr == "_last_error":
-                        out.append(("err", not (isinstance(a.value, ast.Constant) and a.value.value is None)))
+                        out.append(("err", not (isinstance(a_value, ast.Constant) and a_value.value is None)))
                     elif t.attr == "_prev_state":
-                        if isinstance(a.value, ast.Constant) and a.value.value is None:
+                        if isinstance(a_value, ast.Constant) and a_value.value is None:
                             out.append(("prev", None))
-                        elif isinstance(a.value, ast.Call) and call_attr(a.value) == "_apply_safe_state":
+                        elif isinstance(a_value, ast.Call) and call_attr(a_value) == "_apply_safe_state":
                             out.append(("prev", lambda d: d["cap"]))
                         else:
                             # any other expression: a snapshot of whatever the outputs hold right now
@@ -342,6 +369,10 @@ class RunStateBinding(Binding):
             return [mk(d)]
         if name == "_apply_state":
             p = d["prev"]
+            if call.args and isinstance(call.args[0], ast.Name):
+                sn = self.snap.get((id(f.node), call.args[0].id))
+                if sn is not None:
+                    p = d[sn[0]]
             if p in ("live", "safe"):
                 d["outs"] = p
             elif p == "psafe":
